@@ -36,7 +36,10 @@ def gen_cases(rng, tier):
         mat = [[E.rand_expr_covering(rng, [rng.choice(lv["x"])] + ([["t"]] if rng.random() < 0.6 else []), leaves, 2)]
                for _ in range(n)]
         cases.append({"kind": "A", "spec": spec, "expr": mat, "seed": rng.getrandbits(32),
-                      "ivp": rng.random() < 0.15 and not spec["algebraics"]})
+                      "ivp": rng.random() < 0.15 and not spec["algebraics"],
+                      # der() applied to a state symbol itself (whatever its shape and the shapes declared before it)
+                      "bare": rng.choice([s_["name"] for s_ in spec["states"] if not s_.get("quad")])
+                      if rng.random() < 0.3 else None})
     nb = 40 if tier == "quick" else 600
     for i in range(nb):
         cases.append({"kind": "B", "order": rng.choice([1, 2, 3]), "N": rng.choice([1, 2, 3, 4]),
@@ -294,6 +297,7 @@ def run_A(case):
         st = b.stage
         e_mx = b.ca_mat(case["expr"])
         d_mx = C.call("der", st.der, e_mx)
+        d_bare = C.call("der(state)", st.der, b.syms[case["bare"]]) if case.get("bare") else None
     except C.RockitRaised as e:
         res["violations"].append(C.exc_violation(ID, e, "A"))
         return res
@@ -302,6 +306,7 @@ def run_A(case):
     args = [b.syms[n] for n in names] + [st.t]
     try:
         F = ca.Function("der", args, [d_mx])
+        F_bare = ca.Function("der_state", args, [d_bare]) if d_bare is not None else None
     except Exception as e:  # noqa
         res["violations"].append({"kind": "der-free-symbols", "mech": "C16|der-has-free-symbols",
                                   "detail": "der(e) depends on symbols that are not part of the model: %r" % e})
@@ -323,6 +328,19 @@ def run_A(case):
         t = float(rng.uniform(-2, 2))
         got = np.array(F(*[ca.DM(vals[n]) for n in names], t)).reshape(-1)
         f = rhs(vals, t)
+        if F_bare is not None:
+            gb = np.array(F_bare(*[ca.DM(vals[n]) for n in names], t), dtype=float)
+            wb = np.asarray(f[case["bare"]], dtype=float)
+            if gb.shape != wb.shape and gb.size == wb.size:
+                gb = gb.reshape(wb.shape, order="F")       # a vec()'d matrix
+            res["evals"] += 1
+            res["counters"]["bare_state_points"] = res["counters"].get("bare_state_points", 0) + 1
+            if gb.shape != wb.shape or (C.finite(gb, wb) and np.max(np.abs(gb - wb)) > 1e-10 * (1 + np.max(np.abs(wb)))):
+                res["violations"].append({
+                    "kind": "der-mismatch", "mech": "C16|der-of-state-is-not-its-right-hand-side",
+                    "detail": "der(%s) = %s, declared right-hand side %s (state shapes in declaration order: %s)" % (
+                        case["bare"], C.short(gb.reshape(-1)), C.short(wb.reshape(-1)), [s_["shape"] for s_ in spec["states"]])})
+                break
         vp = dict(vals)
         vm = dict(vals)
         for n in snames:
